@@ -103,6 +103,10 @@ def ctStr : Option Bytes → String
   | none => "none"
   | some v => v.toHex
 
+def sentStr : Option (Option Bytes) → String
+  | none => "-"
+  | some c => ctStr c
+
 def stateStr (w : W) : String := s!"len={w.length} ;; st={w.status} ct={ctStr w.ctype}"
 
 def writerStep (s : WriterSt) : List String → WriterSt × String
@@ -117,7 +121,7 @@ def writerStep (s : WriterSt) : List String → WriterSt × String
   | ["end"] =>
     let f := s.req.finish
     ({ s with req := Req.init s.cfg, rank := 0 },
-     s!"{boolStr s.req.escaped} {logStr f.log} len={f.length} ;; st={f.status} ct={ctStr f.ctype}")
+     s!"{boolStr s.req.escaped} {logStr f.log} len={f.length} ;; st={f.status} ct={ctStr f.ctype} sent={sentStr f.sent}")
   | kind :: site :: rest =>
     match parseSite s.cfg.k site, parseAct (kind :: rest) with
     | some (st, rk), some a =>
